@@ -5,14 +5,15 @@
 # Scratch lives under /var/tmp/seedrun.$$ and is removed afterwards.
 set -u
 P="$(cd "$1" && pwd)"; shift
+V="$(cd "$(dirname "$0")/.." && pwd)"      # the /verif checkout this script lives in (main or a builder's worktree)
 S=/var/tmp/seedrun.$$
 mkdir -p "$S"
 git -C /repo worktree add -q --detach "$S/repo" HEAD || exit 2
 if ! git -C "$S/repo" apply "$P/patch.diff" 2>/dev/null && ! git -C "$S/repo" apply --3way "$P/patch.diff" 2>/dev/null; then echo "patch does not apply to /repo HEAD (the code changed since the seed was made: re-base the patch)"; git -C /repo worktree remove --force "$S/repo"; rm -rf "$S"; exit 2; fi
 mkdir -p "$S/verif"
 # committed state of /verif at ${SEED_VERIF_REV:-HEAD} (builders' uncommitted work in progress is left out) + the compiled .lake as a cache
-git -C /verif archive "${SEED_VERIF_REV:-HEAD}" | tar -x -C "$S/verif"
-rsync -a /verif/lean/.lake "$S/verif/lean/" 2>/dev/null
+git -C "$V" archive "${SEED_VERIF_REV:-HEAD}" | tar -x -C "$S/verif"
+rsync -a "$V/lean/.lake" "$S/verif/lean/" 2>/dev/null
 for prop in "$@"; do
   out=$(cd "$S/verif" && DEMETER_REPO="$S/repo" VERIF_TIER="${VERIF_TIER:-quick}" timeout 3000 ./check "$prop" 2>&1 | grep -v conda); rc=$?
   echo "$out" > "$S/$prop.log"
